@@ -100,6 +100,9 @@ pub enum PeerAct {
 	Ping,
 	/// stop reading from the socket but keep it open: the server's writer stalls once the socket buffer is full
 	StopReading,
+	/// a well-formed `add` call in one text frame with a padding parameter of this many bytes, chosen larger than
+	/// `SrvCfg::max_req` (logged as `tx:OVERSIZED`)
+	Oversized(usize),
 }
 
 #[derive(Clone, Debug, PartialEq)]
@@ -171,11 +174,13 @@ pub struct SrvCfg {
 	/// the configuration builder gets its transport restriction as the LAST call (`Some(true)` = ws_only, `Some(false)` =
 	/// http_only), after every limit has been set
 	pub restrict_last: Option<bool>,
+	/// max_request_body_size (0 = the default)
+	pub max_req: u32,
 }
 
 impl Default for SrvCfg {
 	fn default() -> Self {
-		SrvCfg { conns: vec![], scripts: vec![], stop: false, stop_twice: false, drop_handles: false, max_subs: 16, max_conns: 16, buffer: 16, slow_steps: 1, connect_points: false, tcp: false, max_resp: 0, wide_ids: 0, ping_ms: None, low_ws: false, const_ids: false, per_conn_http_mw: false, restrict_last: None }
+		SrvCfg { conns: vec![], scripts: vec![], stop: false, stop_twice: false, drop_handles: false, max_subs: 16, max_conns: 16, buffer: 16, slow_steps: 1, connect_points: false, tcp: false, max_resp: 0, wide_ids: 0, ping_ms: None, low_ws: false, const_ids: false, per_conn_http_mw: false, restrict_last: None, max_req: 0 }
 	}
 }
 
@@ -368,6 +373,9 @@ fn server_cfg_builder(c: &SrvCfg) -> jsonrpsee_server::ServerConfigBuilder {
 	let mut b = ServerConfig::builder().max_subscriptions_per_connection(c.max_subs).max_connections(c.max_conns).set_message_buffer_capacity(c.buffer);
 	if c.max_resp > 0 {
 		b = b.max_response_body_size(c.max_resp);
+	}
+	if c.max_req > 0 {
+		b = b.max_request_body_size(c.max_req);
 	}
 	if let Some(ms) = c.ping_ms {
 		b = b.enable_ws_ping(
@@ -711,6 +719,15 @@ async fn ws_peer<IO: tokio::io::AsyncRead + tokio::io::AsyncWrite + Unpin + Send
 				sched::log(format!("c{c}:stops-reading"));
 				reader.abort();
 				stalled = true;
+				None
+			}
+			PeerAct::Oversized(pad) => {
+				// not logged as an ordinary tx line: the monitors count these separately
+				let m = json!({"jsonrpc":"2.0","id": format!("big{k}"), "method":"add","params":[1, 1, "x".repeat(*pad)]}).to_string();
+				sched::log(format!("c{c}:tx:OVERSIZED:{k}"));
+				if sender.send_text(&m).await.is_err() || sender.flush().await.is_err() {
+					sched::log(format!("c{c}:tx-failed"));
+				}
 				None
 			}
 			PeerAct::Garbage => {
